@@ -111,7 +111,7 @@ func c03r1(c *Ctx) {
 				at := p.IPos(rc.Ret)
 				switch {
 				case p.errOfCall(rc.Facts, cv) == noTri:
-					if p.pfPossiblyNil(rc.Results[eiFn]) {
+					if p.pfPossiblyNilUnder(rc.Results[eiFn], rc.Facts) {
 						bad = append(bad, "return at "+at+" may return a nil error although the phase call failed (error swallowed)")
 					}
 				case p.errOfCall(rc.Facts, cv) == yesTri && p.pfIsZeroFact(rc.Facts, cv, lc.ProbeIdx) == noTri:
@@ -266,7 +266,7 @@ func c03r2(c *Ctx) {
 		oRes := c.Ob(fn, "result-from-recorder", nil, "every return that may carry a nil error returns the recorder's result computed after the object loop")
 		var badRes []string
 		for _, rc := range p.pfReturnCases(fn) {
-			if !p.pfPossiblyNil(rc.Results[eiFn]) {
+			if !p.pfPossiblyNilUnder(rc.Results[eiFn], rc.Facts) {
 				continue
 			}
 			rcall, _ := asCall(rc.Results[piFn])
@@ -351,7 +351,7 @@ func c03r2(c *Ctx) {
 			}
 			region := pfIterRegion(cv, s.loop.Head)
 			for _, rc := range p.pfReturnCases(fn) {
-				if pfReturnInRegion(rc, region) && p.pfPossiblyNil(rc.Results[eiFn]) {
+				if pfReturnInRegion(rc, region) && p.pfPossiblyNilUnder(rc.Results[eiFn], rc.Facts) {
 					bad = append(bad, "return at "+p.IPos(rc.Ret)+" leaves the object loop with a possibly nil error (remaining objects unprobed)")
 				}
 			}
@@ -672,7 +672,7 @@ func c03r4(c *Ctx) {
 		n := 0
 		// the status decision tree may live in an extracted helper: its returns are judged in place
 		for _, rc := range p.mwExpandResult(p.pfReturnCases(fn), piFn) {
-			if !p.pfPossiblyNil(rc.Results[eiFn]) {
+			if !p.pfPossiblyNilUnder(rc.Results[eiFn], rc.Facts) {
 				continue
 			}
 			zero := false
@@ -832,7 +832,7 @@ func (p *Program) c03Origins(v ssa.Value, depth int) []ssa.Value {
 	}
 	var out []ssa.Value
 	for _, cs := range callers {
-		if isNonProductPkg(funcPkgPath(cs.Fn)) {
+		if isNonProductPkg(funcPkgPath(cs.Fn)) || pfDeadClosure(cs.Fn) {
 			continue
 		}
 		if idx >= len(cs.Common.Args) {
